@@ -216,20 +216,22 @@ var withTSAndSampleService = WithPreRequest(func(w http.ResponseWriter, r *http.
 		return err
 	}
 	ctx = context.WithValue(r.Context(), "splService", svc)
+	// one node for the whole request: without X-CH-DSN the registry picks a node at random on EVERY call, so the
+	// samples, their time_series rows and the series cache view have to follow the node chosen first
+	nodeName := svc.GetNodeName()
 
-	svc, err = Registry.GetTimeSeriesService(dsn.(string))
+	svc, err = Registry.GetTimeSeriesService(nodeName)
 	if err != nil {
 		return err
 	}
 	ctx = context.WithValue(ctx, "tsService", svc)
 
-	svc, err = Registry.GetProfileInsertService(dsn.(string))
+	svc, err = Registry.GetProfileInsertService(nodeName)
 	if err != nil {
 		return err
 	}
 	ctx = context.WithValue(ctx, "profileService", svc)
 
-	nodeName := svc.GetNodeName()
 	ctx = context.WithValue(ctx, "node", nodeName)
 	*r = *r.WithContext(ctx)
 	return nil
